@@ -98,6 +98,12 @@ theorem frameE_revoke (c : Chan) (n : Nat) (hs : c.slot = .ready)
             apply hnok
             exact release_adv_ok _ n hs rfl (by omega)
 
+theorem frameE_revokeP (c : Chan) (n : Nat) (po : Bool) (hs : c.slot = .ready)
+    (h : (revokeP c n po).out.res.isErr = true) : (revokeP c n po).c = c := by
+  rcases revokeP_cases c n po with e | e
+  · rw [e] at h ⊢; exact frameE_revoke c n hs h
+  · rw [e]; rfl
+
 theorem frameE_activate (c : Chan) (_h : (activate c).out.res.isErr = true) : True := trivial
 
 theorem frameE_generic_activate (c : Chan) (h : (activate c).out.res.isErr = true) : (activate c).c = c := by
@@ -171,6 +177,12 @@ theorem revoke_ok_nosecret (c : Chan) (m : Nat) (h1 : 1 ≤ m) (hok : (revoke c 
           · rename_i hnok
             intro hok; exact absurd hok hnok
 
+theorem revokeP_ok_nosecret (c : Chan) (m : Nat) (po : Bool) (h1 : 1 ≤ m) (hok : (revokeP c m po).out.res = .ok)
+    (hsec : (revokeP c m po).out.secret = none) : (revokeP c m po).c = c := by
+  rcases revokeP_cases c m po with e | e
+  · rw [e] at hok hsec ⊢; exact revoke_ok_nosecret c m h1 hok hsec
+  · rw [e]; rfl
+
 theorem isErr_not_ok {r : Res} (h : r.isErr = true) : r ≠ .ok := by
   intro e; subst e; simp [Res.isErr] at h
 
@@ -197,7 +209,7 @@ theorem chanStep_frameE (F : Nat → Bytes → Bytes) (c : Chan) (op : Op)
   | getSecret n => rfl
   | getSecretOrNone n => rfl
   | validate n info sv pk => exact frameE_needReady c (validate · n info sv pk) (fun _ => frameE_validate c n info sv pk) h
-  | revoke n => exact frameE_needReady c (revoke · n) (fun hs => frameE_revoke c n hs) h
+  | revoke n po => exact frameE_needReady c (revokeP · n po) (fun hs => frameE_revokeP c n po hs) h
   | activate => exact frameE_needReady c activate (fun _ => frameE_generic_activate c) h
   | signHolder n => exact frameE_needReady c (signHolder · n) (fun _ => frameE_signHolder c n) h
   | signRecovery => exact frameE_needReady c signRecovery (fun _ => frameE_signRecovery c) h
@@ -254,7 +266,7 @@ theorem chanStep_frameE (F : Nat → Bytes → Bytes) (c : Chan) (op : Op)
             unfold activate
             simp [← hn, hz, Res.isErr]
     · exact frameE_validate c n info sv pk
-  | hRevoke ver n =>
+  | hRevoke ver n po =>
     revert h
     simp only [chanStep]
     split
@@ -267,8 +279,8 @@ theorem chanStep_frameE (F : Nat → Bytes → Bytes) (c : Chan) (op : Op)
         · -- reply without secret: only possible without a state change
           rename_i hcond
           intro _
-          exact revoke_ok_nosecret c (n + 1) (by omega) hcond.1 hcond.2
-        · intro he; exact frameE_revoke c (n + 1) hs he
+          exact revokeP_ok_nosecret c (n + 1) po (by omega) hcond.1 hcond.2
+        · intro he; exact frameE_revokeP c (n + 1) po hs he
   | hGetPoint ver n =>
     simp only [chanStep]
     repeat' split
@@ -334,6 +346,12 @@ theorem np_revoke (c : Chan) (n : Nat) (hs : c.slot = .ready) (h : (revoke c n).
           · rename_i hnok
             exfalso
             exact hnok (release_adv_ok _ n hs rfl (by omega))
+
+theorem np_revokeP (c : Chan) (n : Nat) (po : Bool) (hs : c.slot = .ready) (h : (revokeP c n po).persisted = false)
+    (hp : (revokeP c n po).out.res ≠ .panic) : (revokeP c n po).c = c := by
+  rcases revokeP_cases c n po with e | e
+  · rw [e] at h hp ⊢; exact np_revoke c n hs h hp
+  · rw [e]; rfl
 
 theorem np_simple_activate (c : Chan) (h : (activate c).persisted = false) : (activate c).c = c := by
   revert h; unfold activate fail
@@ -426,7 +444,7 @@ theorem chanStep_np (F : Nat → Bytes → Bytes) (c : Chan) (op : Op)
   | getSecret n => rfl
   | getSecretOrNone n => rfl
   | validate n info sv pk => exact np_needReady c (validate · n info sv pk) (fun _ h _ => np_validate c n info sv pk h) h hp
-  | revoke n => exact np_needReady c (revoke · n) (fun hs h hp => np_revoke c n hs h hp) h hp
+  | revoke n po => exact np_needReady c (revokeP · n po) (fun hs h hp => np_revokeP c n po hs h hp) h hp
   | activate => exact np_needReady c activate (fun _ h _ => np_simple_activate c h) h hp
   | signHolder n => exact np_needReady c (signHolder · n) (fun _ h _ => np_signHolder c n h) h hp
   | signRecovery => exact np_needReady c signRecovery (fun _ h _ => np_signRecovery c h) h hp
@@ -445,7 +463,7 @@ theorem chanStep_np (F : Nat → Bytes → Bytes) (c : Chan) (op : Op)
       simp [validate_ok_persisted c n info sv pk hok] at h2
     · intro h2 _
       exact np_validate c n info sv pk h2
-  | hRevoke ver n =>
+  | hRevoke ver n po =>
     revert h hp
     simp only [chanStep]
     split
@@ -457,8 +475,8 @@ theorem chanStep_np (F : Nat → Bytes → Bytes) (c : Chan) (op : Op)
       · split
         · rename_i hcond
           intro _ _
-          exact revoke_ok_nosecret c (n + 1) (by omega) hcond.1 hcond.2
-        · intro h2 hp2; exact np_revoke c (n + 1) hs h2 hp2
+          exact revokeP_ok_nosecret c (n + 1) po (by omega) hcond.1 hcond.2
+        · intro h2 hp2; exact np_revokeP c (n + 1) po hs h2 hp2
   | hGetPoint ver n =>
     simp only [chanStep]
     repeat' split
